@@ -3,6 +3,7 @@ import Casket.Model.Mitm
 import Casket.Model.Link
 import Casket.Model.FCGI
 import Casket.Model.FCGIStatus
+import Casket.Model.AuthCfg
 import Casket.Spec.PeerBytes
 import Casket.Spec.Hello
 import Driver.Proto
@@ -296,7 +297,54 @@ def statusJudge (_ : List String) (out : String) : String :=
     "bad:panic:request handling panicked on the Status header a FastCGI responder sent (" ++ (out.drop 12).toString ++ ")"
   else "ok"
 
+/-- c19.authcfg: basicauth rules through the real setup over a history of loads (Model/AuthCfg.lean) -/
+def authPairs (s : String) : Option (List (Nat × Nat)) :=
+  if s = "" then some [] else
+  (s.splitOn ",").mapM fun e => match e.splitOn "." with
+    | [u, p] => do pure ((← u.toNat?), (← p.toNat?))
+    | _ => none
+
+def authLoad (s : String) : Option Casket.AuthCfg.Load :=
+  match s.splitOn "|" with
+  | [d, us] => do
+    let users ← Driver.natList us
+    if d = "-" then pure (none, users) else
+    match d.splitOn ":" with
+    | [st, t] => do
+      let stamp ← st.toNat?
+      let table ← authPairs t
+      if stamp % 100 ≠ table.length then none else
+      pure (some ⟨stamp, table⟩, users)
+    | _ => none
+  | _ => none
+
+def authAuth (s : String) : Option (Option (Nat × Nat)) :=
+  if s = "-" then some none else
+  match authPairs s with
+  | some [a] => some (some a)
+  | _ => none
+
+def authCfgModel : List String → String
+  | [ls, a] =>
+    match (ls.splitOn ";").mapM authLoad, authAuth a with
+    | some loads, some auth =>
+      ";".intercalate ((Casket.AuthCfg.run auth loads none).map Casket.AuthCfg.showOutcome)
+    | _, _ => "bad-case"
+  | _ => "bad-case"
+
+/-- the implementation's answer read back into outcomes and judged by `Casket.AuthCfg.verdict`
+(the predicate of C19_authcfg_model_verdict_ok) -/
+def authCfgJudge (_ : List String) (out : String) : String :=
+  let os : List (Option Casket.AuthCfg.Outcome) :=
+    if out.startsWith "PANIC" then [some .panic] else
+    (out.splitOn ";").map fun o =>
+      if o = "refused" then none
+      else if o.startsWith "PANIC" then some .panic
+      else some (.code ((o.drop 5).toString.toNat?.getD 0))
+  Casket.AuthCfg.verdict os
+
 def streams : List Driver.Stream := [
+  { name := "c19.authcfg", model := authCfgModel, judge := authCfgJudge },
   { name := "c19.status", model := statusModel, judge := statusJudge },
   { name := "c19.hello", model := helloModel, judge := helloJudge },
   { name := "c19.looks", model := looksModel, judge := looksJudge },
